@@ -65,9 +65,11 @@ def _bind_args(callee, call):
     return out
 
 
-def _eligible(callee):
+def _eligible(callee, nested_in=None):
     n = callee.node
-    if not isinstance(n, ast.FunctionDef) or not callee.name.startswith("_") or callee.name.startswith("__"):
+    private = callee.name.startswith("_") and not callee.name.startswith("__")
+    closure = nested_in is not None and getattr(callee, "parent", None) is not None and callee.parent.key == nested_in.key
+    if not isinstance(n, ast.FunctionDef) or not (private or closure):
         return False
     body = _docstring_free(n.body)
     count = sum(1 for x in ast.walk(n) if isinstance(x, ast.stmt)) - 1
@@ -79,22 +81,71 @@ def _eligible(callee):
     return True
 
 
-def _helper_body(callee, call):
-    """(statements, return expression or None) of the helper with parameters substituted and locals renamed; None if the
-    helper's returns are not of the supported form (a single `return` as the last statement, or none)"""
+def _returns_outside_nested(fn):
+    nested = [x for x in ast.walk(fn) if isinstance(x, (ast.FunctionDef, ast.Lambda)) and x is not fn]
+    inner = {id(y) for x in nested for y in ast.walk(x)}
+    return [x for x in ast.walk(fn) if isinstance(x, ast.Return) and id(x) not in inner]
+
+
+def _single_exit(body, make):
+    """`body` with every `return E` replaced by the statements `make(E)` (E may be None) and the code behind an
+    `if ...: return` moved into the else branch, so that control leaves the block at its end only.  Supported: returns that
+    are the last statement of the function body or of an if/else arm (nested).  None when a return sits anywhere else (loop,
+    try, with, not last)."""
+    out = []
+    for i, st in enumerate(body):
+        rest = body[i + 1:]
+        if isinstance(st, ast.Return):
+            if rest:
+                return None
+            out.extend(make(st.value))
+            return out
+        has_ret = any(isinstance(x, ast.Return) for x in ast.walk(st)) and not isinstance(st, (ast.FunctionDef, ast.ClassDef))
+        if not has_ret:
+            out.append(st)
+            continue
+        if not isinstance(st, ast.If):
+            return None
+
+        def ends(block):
+            return bool(block) and (isinstance(block[-1], ast.Return) or (isinstance(block[-1], ast.If) and block[-1].orelse and
+                                                                          ends(block[-1].body) and ends(block[-1].orelse)) or
+                                    isinstance(block[-1], ast.Raise))
+        b_ends, o_ends = ends(st.body), ends(st.orelse)
+        new = clone(st)
+        if b_ends and o_ends:
+            nb, no = _single_exit(st.body, make), _single_exit(st.orelse, make)
+            if nb is None or no is None or rest:
+                return None
+            new.body, new.orelse = nb or [ast.Pass()], no
+            out.append(new)
+            return out
+        if b_ends:
+            nb = _single_exit(st.body, make)
+            no = _single_exit(list(st.orelse) + list(rest), make)
+        elif o_ends:
+            nb = _single_exit(list(st.body) + list(rest), make)
+            no = _single_exit(st.orelse, make)
+        else:
+            return None
+        if nb is None or no is None:
+            return None
+        new.body, new.orelse = nb or [ast.Pass()], no
+        out.append(new)
+        return out
+    out.extend(make(None) if make is not None else [])
+    return out
+
+
+def _prepare(callee, call):
+    """(body statements, initialising statements, rewrite function) of the helper for this call: parameters substituted,
+    locals renamed; None if the call cannot be bound"""
     binding = _bind_args(callee, call)
     if binding is None:
         return None
     body = _docstring_free(callee.node.body)
     nested = [x for x in ast.walk(callee.node) if isinstance(x, (ast.FunctionDef, ast.Lambda)) and x is not callee.node]
     inner_nodes = {id(y) for x in nested for y in ast.walk(x)}
-    rets = [x for x in ast.walk(callee.node) if isinstance(x, ast.Return) and id(x) not in inner_nodes]
-    tail = None
-    if rets:
-        if len(rets) != 1 or rets[0] is not body[-1]:
-            return None
-        tail = rets[0].value
-        body = body[:-1]
     params = set(binding)
     locals_ = set()
     for x in ast.walk(callee.node):
@@ -122,9 +173,51 @@ def _helper_body(callee, call):
             if isinstance(x, ast.FunctionDef) and x.name in locals_:
                 x.name = x.name + suffix
         return subst_names(node, mapping)
+    return body, pre, rewrite
+
+
+def _helper_body(callee, call):
+    """(statements, return expression or None) of the helper with parameters substituted and locals renamed; None if the
+    helper's returns are not of the supported form (a single `return` as the last statement, or none)"""
+    rets = _returns_outside_nested(callee.node)
+    body = _docstring_free(callee.node.body)
+    if rets and (len(rets) != 1 or rets[0] is not body[-1]):
+        return None
+    prep = _prepare(callee, call)
+    if prep is None:
+        return None
+    body, pre, rewrite = prep
+    tail = None
+    if rets:
+        tail = rets[0].value
+        body = body[:-1]
     stmts = pre + [rewrite(s) for s in body]
     ret = rewrite(tail) if tail is not None else None
     return stmts, ret
+
+
+def _helper_body_multi(callee, call, st):
+    """statements that replace the caller's statement `st` (an assignment / return / expression statement whose value is
+    `call`) for a helper with several returns in if/else arms (early returns): the helper's body in single-exit form with each
+    `return E` turned into `st` with value E.  None if not of that form."""
+    prep = _prepare(callee, call)
+    if prep is None:
+        return None
+    body, pre, rewrite = prep
+
+    def make(e):
+        if isinstance(st, ast.Expr):
+            return []
+        new = clone(st)
+        new.value = e if e is not None else ast.Constant(value=None)
+        return [new]
+    body = [rewrite(s) for s in body]
+    out = _single_exit(body, make)
+    if out is None:
+        return None
+    if isinstance(st, ast.Expr) is False and not _returns_outside_nested(callee.node):
+        return None
+    return pre + out
 
 
 def inlined(prog, fi, depth=DEPTH, skip=()):
@@ -144,7 +237,7 @@ def inlined(prog, fi, depth=DEPTH, skip=()):
         for k in prog.resolve_call(fi, call):
             callee = prog.functions.get(k)
             if callee is not None and callee.key != fi.key and callee.key not in stack and callee.name not in skip and \
-                    _eligible(callee):
+                    _eligible(callee, fi):
                 return callee
         return None
 
@@ -164,6 +257,12 @@ def inlined(prog, fi, depth=DEPTH, skip=()):
                 call = st.value
             callee = resolve(call, stack) if call is not None and level > 0 else None
             hb = _helper_body(callee, call) if callee is not None else None
+            if callee is not None and hb is None:
+                multi = _helper_body_multi(callee, call, st)
+                if multi is not None:
+                    out.extend(expand_block(multi, level - 1, stack | {callee.key}))
+                    changed[0] = True
+                    continue
             if hb is not None:
                 stmts, ret = hb
                 stmts = expand_block(stmts, level - 1, stack | {callee.key})
@@ -174,6 +273,8 @@ def inlined(prog, fi, depth=DEPTH, skip=()):
                 if ret is not None:
                     new = clone(st)
                     new.value = ret
+                    if level > 1:
+                        new = expand_exprs(new, level - 1, stack | {callee.key})
                     out.extend(stmts)
                     out.append(new)
                     changed[0] = True
@@ -205,6 +306,18 @@ def inlined(prog, fi, depth=DEPTH, skip=()):
             return st
         return T().visit(st)
     node.body = expand_block(node.body, depth, frozenset([fi.key]))
+    if changed[0]:
+        # f(**{'a': x, 'b': y}) (a helper that returned the keyword dictionary) -> f(a=x, b=y)
+        for c in ast.walk(node):
+            if isinstance(c, ast.Call):
+                kws = []
+                for k in c.keywords:
+                    if k.arg is None and isinstance(k.value, ast.Dict) and k.value.keys and all(
+                            isinstance(x, ast.Constant) and isinstance(x.value, str) and x.value.isidentifier() for x in k.value.keys):
+                        kws.extend(ast.keyword(arg=x.value, value=v) for x, v in zip(k.value.keys, k.value.values))
+                    else:
+                        kws.append(k)
+                c.keywords = kws
     if not changed[0]:
         cache[key] = fi
         return fi
